@@ -31,6 +31,9 @@ class LasMMAP(lasdata.LasData):
         header = LasHeader.read_from(m)
         if header.are_points_compressed:
             raise ValueError("Cannot mmap a compressed LAZ file")
+        # the mmap object is not a complete file object (no `seekable`),
+        # the evlrs are read from the file itself
+        header.read_evlrs(fileref)
 
         points_data = record.PackedPointRecord.from_buffer(
             m,
